@@ -62,8 +62,11 @@ PLANS['C10'] = dict(level='exploration',
 PLANS['C11'] = dict(level='exploration',
     runs=[R('equals', 'fast', dict(families=200000), dict(families=2000000), dict(agree_equal=10000, agree_different=100000)),
           R('equals', 'asan', dict(families=50000), dict(families=400000)),
-          R('hist', 'fast', dict(histories=400000), dict(histories=16000000), dict(equals_agree_equal=1000, equals_agree_different=1000))],
-    rule="near-duplicate families (single-component edits, NULL vs empty, '/a' vs 'a', same IPv6 address spelled differently): all ordered pairs, reflexivity, symmetry, transitivity, NULL arguments, arguments unchanged; plus pairs of library-produced objects from random histories (equal <=> identical text, also against a re-parse); distinct = distinct ordered pairs",
+          R('hist', 'fast', dict(histories=400000), dict(histories=16000000), dict(equals_agree_equal=1000, equals_agree_different=1000)),
+          R('resolve', 'fast', dict(random=200000), dict(random=8000000), dict(produced_equals_reparse=100000)),
+          R('norm', 'fast', dict(random=20000), dict(random=1000000), dict(produced_equals_reparse=100000)),
+          R('shorten', 'fast', dict(random=200000), dict(random=4000000), dict(produced_equals_reparse=100000))],
+    rule="near-duplicate families (single-component edits, NULL vs empty, '/a' vs 'a', same IPv6 address spelled differently): all ordered pairs, reflexivity, symmetry, transitivity, NULL arguments, arguments unchanged; plus pairs of library-produced objects from random histories (equal <=> identical text, also against a re-parse); plus every result of the systematic resolution, normalisation and reference-creation enumerations against the parse of its own text, both ways round; distinct = distinct ordered pairs",
     assumptions=A_MODELS)
 PLANS['C12'] = dict(level='exploration',
     runs=[R('owner', 'fast', dict(random=1000000), dict(random=12000000), dict(hostkind_1=1000, hostkind_2=500, hostkind_3=500, hostkind_4=300)),
